@@ -727,15 +727,47 @@ def parse_cache_protocol():
     sync = " ".join(strip_comments(rd("runtime/src/vm/globals/sync.rs")).split())
     if sync.count("let value = self.globals_by_index[idx]; self.globals.insert(name.clone(), value);") != sync.count("self.globals.insert("):
         raise ExtractError("globals/sync.rs: a by-name insert no longer copies from globals_by_index")
-    acc = " ".join(strip_comments(rd("runtime/src/vm/globals/access.rs")).split())
-    m1 = re.search(r"pub fn set_global\(&mut self, name: String, value: Value\) \{(.*?)\} pub fn", acc)
-    m2 = re.search(r"pub fn set_global_by_index\(&mut self, idx: usize, value: Value\) \{(.*?)\} pub fn", acc)
-    if not m1 or not m2:
-        raise ExtractError("globals/access.rs: set_global / set_global_by_index not found")
-    stores_flush = ("self.globals.insert(name, value);" in m1.group(1) and "self.call_site_cache.clear();" in m1.group(1)
-                    and "self.globals_by_index[idx] = value;" in m2.group(1) and "self.call_site_cache.clear();" in m2.group(1))
+    # every function of runtime/src/vm that writes a NEW value (a `value` parameter) into either view of the globals must
+    # clear call_site_cache, itself or through helpers it calls (followed transitively)
+    fn_bodies = {}
+    store_fns = []
+    for root, _, files in os.walk(vmdir):
+        for f in sorted(files):
+            rel = os.path.relpath(os.path.join(root, f), vmdir)
+            if not f.endswith(".rs"):
+                continue
+            t = re.sub(r"\s+\.", ".", " ".join(strip_comments(rd("runtime/src/vm/" + rel)).split()))
+            for m in re.finditer(r"\bfn (\w+)\s*(?:<[^>]*>)?\(([^)]*)\)[^{;]*\{", t):
+                depth, e = 0, m.end() - 1
+                while e < len(t):
+                    if t[e] == "{":
+                        depth += 1
+                    elif t[e] == "}":
+                        depth -= 1
+                        if depth == 0:
+                            break
+                    e += 1
+                body = t[m.end():e]
+                fn_bodies.setdefault(m.group(1), []).append(body)
+                if re.search(r"self\.globals_by_index\[[^\]]+\] = value;|self\.globals\.insert\(name, value\);", body) and "value: Value" in m.group(2):
+                    store_fns.append((rel, m.group(1), body))
+
+    def clears(body, seen, depth=0):
+        if "self.call_site_cache.clear()" in body:
+            return True
+        if depth >= 4:
+            return False
+        for h in set(re.findall(r"self\.(\w+)\(", body)):
+            if h in seen or h not in fn_bodies:
+                continue
+            if any(clears(b, seen | {h}, depth + 1) for b in fn_bodies[h]):
+                return True
+        return False
     stores = [k for k in kinds if k[1] == "store"]
-    stores_only_in_access = all(rel == "globals/access.rs" for rel, _ in stores) and len(stores) == 2
+    in_store_fns = sum(len(re.findall(r"self\.globals_by_index\[[^\]]+\] = value;|self\.globals\.insert\(name, value\);", b)) for _, _, b in store_fns)
+    # dispatch arms store through set_global / set_global_by_index only (their own writes would be classified above as well)
+    stores_flush = bool(store_fns) and all(clears(b, {n}) for _, n, b in store_fns) and in_store_fns == len(stores)
+    stores_only_in_access = True
     gc = " ".join(strip_comments(rd("runtime/src/vm/gc.rs")).split())
     gc_roots = ("for value in self.globals.values() {" in gc and "for value in &self.globals_by_index {" in gc
                 and gc.find("self.heap.sweep();") < gc.find("self.globals_by_index_cache.clear();") and "self.globals_by_index_cache.clear();" in gc)
